@@ -32,6 +32,6 @@ example : cellFromCellBlock
     [0, 0, 0, 20, 0, 0, 0, 12, 0, 0, 0, 0, 0xff, 0xff, 0, 0, 0, 0, 0, 0, 0, 0, 0, 4]
     = .err "rowlen" := by decide
 example : (cellBody 20 12 0 65535 [0, 0, 0, 0, 0, 0, 0, 0, 0, 4]).isFault = true := by decide
-example : deserializeCellBlocks [0, 0, 0, 1] 3 = .err "short" := by decide
+example : deserializeCellBlocks [0, 0, 0, 1] 3 = .err "buffer is too small for the cell count" := by decide
 
 end GV.Cell
